@@ -349,9 +349,26 @@ def check_extraction(ctx, res: Result, dotted, _seen=None, delegated: bool = Fal
             if not covered:
                 # hyperedges inserted after the transfer are fine when the selection only admits hyperedges over already
                 # present nodes: `if set(edge).issubset(set(nodes))`
-                if ev.meth in ("add_edge", "add_edges") and _under_subset_test(ev.view, c):
+                if ev.meth in ("add_edge", "add_edges") and (_under_subset_test(ev.view, c) or (ev.view is not v and _under_subset_test(v, ev.at))):
                     res.ok("X-NMETA", ev.view.fi.short, norm(c), "subset-guarded", loc(ev.view.fi, c))
                     continue
+                # `if not is_induced_by(edge, allowed_nodes): continue` - the selection is a predicate helper that is handed the
+                # requested node set: whether an admitted hyperedge can bring new nodes is the helper's business
+                if ev.meth in ("add_edge", "add_edges"):
+                    at_id = v.cfg_id(ev.at)
+                    opaque_sel = False
+                    for iff in walk_no_nested(v.fi.node):
+                        if not isinstance(iff, ast.If):
+                            continue
+                        tid_ = v.cfg.by_ast.get(id(iff.test))
+                        if tid_ is None or at_id is None or not any(v.cfg.branch_dominated(tid_, lab_, at_id) for lab_ in ("T", "F")):
+                            continue
+                        for x in ast.walk(iff.test):
+                            if isinstance(x, ast.Call) and not is_self_attr(x.func) and ctx.callees(v.fi, x) and any(_param_derived(v, a_) for a_ in list(x.args) + [k.value for k in x.keywords]):
+                                opaque_sel = True
+                    if opaque_sel:
+                        res.unknown("X-NMETA", ev.view.fi.short, norm(c), "after-transfer", "the inserted hyperedges are admitted by a predicate helper that receives the requested nodes; whether they can bring new nodes is not decided here", loc(ev.view.fi, c))
+                        continue
                 # the hyperedges come out of a helper that was handed the requested node list: the selection (and with it whether
                 # a hyperedge can bring new nodes) is the helper's
                 lp_ = ev.view.enclosing(c, (ast.For,))
